@@ -200,7 +200,7 @@ func init() {
 			"family 2: the driver built with -race and the real bytebufferpool, G goroutines x N iterations each over own instances with Gosched/sleep injected at sink writes, outputs compared with sequential references, race reports counted from GORACE logs; " +
 			"family 3: the same against a shadow allocator replacing bytebufferpool (poison on Put, quarantine, poison verified on Get, stale capacity visible); " +
 			"distinct = (history, polluter) and interleaving signatures (goroutine switch sequence between sink writes); non-trivial = every repeated history; interleavings with >= 1 switch",
-		Require: []string{"family1_runs", "race_detector_processes", "shadow_allocator_processes", "shadow_cross_goroutine_handovers", "goroutine_switches_between_sink_writes", "repeated_histories", "shadow_reuses", "histories_compared_across_processes", "polluters_with_failed_operations", "fault_then_verify_rounds"},
+		Require: []string{"family1_runs", "race_detector_processes", "shadow_allocator_processes", "shadow_cross_goroutine_handovers", "goroutine_switches_between_sink_writes", "repeated_histories", "shadow_reuses", "histories_compared_across_processes", "polluters_with_failed_operations", "fault_then_verify_rounds", "interleaved_instance_pairs", "interleaved_pairs_sharing_an_option_slice"},
 		RequireFn: func(r *Run) []string {
 			if r.M.Maxes["max_instances_in_flight"] < 2 {
 				return []string{"no two instances were ever in flight at the same time"}
@@ -214,11 +214,12 @@ func init() {
 		Shapes: portfolioMain,
 		Rule: "carrier files written by the reference writer (3 row groups, up to 3 pages per chunk, each of the 3 supported codecs); one column chunk is rewritten to use one unsupported feature, really encoded: " +
 			"dictionary page + RLE_DICTIONARY / PLAIN_DICTIONARY data page, dictionary page followed by plain pages, index page, data page v2, DELTA_BINARY_PACKED, DELTA_LENGTH_BYTE_ARRAY, DELTA_BYTE_ARRAY, BYTE_STREAM_SPLIT, RLE booleans, " +
-			"BIT_PACKED definition / repetition levels, codecs LZO (opaque body), BROTLI, LZ4, ZSTD, LZ4_RAW and unassigned codec ids (8, 1000, -1); every column x feature (quick: 2 (row group, page position) placements; thorough: all 9 x 3 codecs); " +
+			"BIT_PACKED definition / repetition levels, codecs LZO (opaque body), BROTLI, LZ4, ZSTD, LZ4_RAW and unassigned codec ids (8, 1000, -1), and encoding ids by number in the value / definition-level / repetition-level slot of a page header (8 without dictionary page, 10, 64, 255, and 256, 259, 65536, -1 which only look supported after truncation); every column x feature (quick: 2 (row group, page position) placements; thorough: all 9 x 3 codecs); " +
 			"oracle = constructor or Error() reports an error, no panic; distinct = case id; non-trivial = feature placed in a later row group or a later page",
 		Require: []string{"feature_dictionary_rle", "feature_dictionary_plain", "feature_dictionary_page_then_plain", "feature_index_page", "feature_data_page_v2", "feature_delta_binary_packed",
 			"feature_delta_length_byte_array", "feature_delta_byte_array", "feature_byte_stream_split", "feature_rle_boolean", "feature_bit_packed_def_levels", "feature_bit_packed_rep_levels",
-			"feature_codec_lzo", "feature_codec_brotli", "feature_codec_lz4", "feature_codec_zstd", "feature_codec_lz4_raw", "feature_codec_unassigned_8", "feature_codec_unassigned_1000", "feature_codec_negative", "feature_in_later_row_group", "feature_in_later_page"},
+			"feature_codec_lzo", "feature_codec_brotli", "feature_codec_lz4", "feature_codec_zstd", "feature_codec_lz4_raw", "feature_codec_unassigned_8", "feature_codec_unassigned_1000", "feature_codec_negative", "feature_in_later_row_group", "feature_in_later_page",
+			"feature_value_encoding_id_8", "feature_value_encoding_id_256", "feature_def_level_encoding_id_8", "feature_rep_level_encoding_id_256", "feature_def_level_encoding_id_-1"},
 	})
 	addSpec(&Spec{ID: "C05", Title: "parquetgen never emits silently wrong code", Level: "translation_validation",
 		Rule: "programs = every struct shape of the bounded grammar (ordered forests of {leaf, group} x {required, optional, repeated}, depth <= 3, leaf types round-robin over the 8 primitives): " +
@@ -245,9 +246,10 @@ func init() {
 		Custom: customC05,
 	})
 	addSpec(&Spec{ID: "C14", Title: "excluded fields are inert and embedding equals inlining", Level: "translation_validation",
-		Rule: "programs = base shapes from the C05 universe that have no C05 finding (quick 150 with <= 4 nodes, thorough 500 with <= 5 nodes) and their decorated variants: an excluded field (rotating over 23 forms: lower-case, blank, underscore, multi-name declarations (all unexported; an unexported name added to the declaration of an exported field), " +
+		Rule: "programs = base shapes from the C05 universe that have no C05 finding (quick 150 with <= 4 nodes, thorough 500 with <= 5 nodes) and their decorated variants: an excluded field (rotating over 26 forms: lower-case, blank, underscore, multi-name declarations (all unexported; an unexported name added to the declaration of an exported field), " +
 			"non-ASCII lower-case, unexported map/pointer-to-struct/anonymous struct, func with named parameters, parquet:\"-\" on string/map/chan/func/time.Time/slice/interface, other tag keys before/after incl. values with escaped quotes, spaces and colons) inserted at a position of a struct at any nesting level, one variant with a field at every position, " +
-			"and variants in which a contiguous run of sibling fields is moved into an embedded struct (quick: 2+1+2 variants per base; thorough: every position and every run); " +
+			"and variants in which a contiguous run of sibling fields is moved into an embedded struct (quick: 2+1+2 variants per base; thorough: every position and every run, and for one base in twelve every form at every position); one base in four is built a second time with field names numbered per struct (nested structs repeat the names around them; all embeddings); " +
+			"every chunk of struct definitions is additionally generated in ONE process through gen.FromStruct and the output compared with the separate parquetgen processes' output; " +
 			"oracle = files byte-identical to the base's for the same records (3 configurations), excluded fields (filled with junk before Add) zero after reading into a fresh struct, values read back; distinct = (base, decoration); non-trivial = decoration below the root or at every position",
 		EvalCounter:  "cases",
 		PrivateCache: true,
@@ -265,13 +267,19 @@ func init() {
 			if r.M.Counters["decor_embed"] == 0 || r.M.Counters["pairs_compared"] == 0 {
 				out = append(out, "no embedding variant / no pair compared")
 			}
+			if r.M.Counters["in_process_generations_compared"] == 0 {
+				out = append(out, "no struct definition was generated in the shared generator process")
+			}
+			if r.M.Counters["bases_with_repeated_field_names"] == 0 {
+				out = append(out, "no base with field names repeated across nesting levels")
+			}
 			return out
 		},
 		Custom: customC14,
 	})
 	addSpec(&Spec{ID: "C15", Title: "a struct regenerated from a file reads that file back faithfully", Level: "translation_validation",
 		Rule: "programs = every non-repeated struct shape (leaf types cycling over int32, int64, float32, float64, bool, string; uniquely named groups; half of them with column tags that differ from the Go field names: lower-case ASCII, a lower-case non-ASCII first letter, snake case) with <= 4 nodes plus a fixed spread of 80 five-node shapes (quick) or <= 5 nodes plus 700 six-node shapes (thorough), " +
-			"minus structures listed as C05 findings; three stages: the generated writer writes 3 files per shape (structural enumeration, extremes, random multi-row-group), parquetgen -parquet regenerates struct + reader from the first file, " +
+			"minus structures listed as C05 findings; three stages: the generated writer writes 3 files per shape (structural enumeration, extremes, random multi-row-group; for one shape in eight a fourth file of hundreds to thousands of one-record row groups whose footer exceeds 64 KiB, for one in 64 1 MiB), parquetgen -parquet regenerates struct + reader from the first (or, where present, the fourth) file, " +
 			"the regenerated reader reads all three files; oracle = regenerated struct has the same column paths, nesting, optionality and physical types (by reflection under the README mapping) and returns exactly the written values; distinct = shape signature; non-trivial = shape has a group",
 		EvalCounter:  "cases",
 		PrivateCache: true,
@@ -283,6 +291,9 @@ func init() {
 			var out []string
 			if r.M.Counters["programs_clean_nested"] == 0 {
 				out = append(out, "no nested shape went through all three stages")
+			}
+			if r.M.Counters["structs_regenerated_from_files_with_large_footers"] == 0 || r.M.Maxes["largest_file_regenerated_from_bytes"] < 1<<20 {
+				out = append(out, "no struct was regenerated from a file with a footer above 64 KiB / 1 MiB")
 			}
 			acc := r.M.Counters["programs_run"] + r.M.Counters["kind_regen_fail"] + r.M.Counters["kind_compile_fail"]
 			if acc != r.M.Counters["programs_enumerated"] {
